@@ -70,10 +70,11 @@ func TestC14(t *testing.T) {
 		"generated world, 0-6 blocks of generated history, then 6-14 attack transactions (one DeliverTx each) over every message kind (send, node stake/edit, node begin-unstake, "+
 			"node unjail, app stake/edit, app begin-unstake, app transfer, change-param, DAO transfer/burn, upgrade) x attack kind (signed by an unrelated funded key with its own or the "+
 			"victim's public key, by a key that is a legitimate signer of OTHER objects (another operator, the DAO owner), other chain id, signature over a different fee/message, garbage or "+
-			"bit-flipped signature, omitted public key with a foreign signature, incomplete/misordered multisig, attacker naming itself in the signer field). Oracle: full dump of "+
+			"bit-flipped signature, omitted public key with a foreign signature, incomplete/misordered multisig, attacker naming itself in the signer field, owner of one application transferring it onto the key of "+
+			"another existing - staked or unstaking - application). Oracle: full dump of "+
 			"all substores before/after: noauth => identical and code != 0; selfpay => only the attacker's account and the fee collector change, by exactly the fee, code != 0. "+
 			"non-trivial = the attacking key is a funded account that legitimately signs for some other object",
-		map[string]float64{"noauth": 0.9, "selfpay": 0.8, "attacker-is-other-operator": 0.5, "multisig-attack": 0.3, "wrong-chain": 0.3},
+		map[string]float64{"noauth": 0.9, "selfpay": 0.8, "attacker-is-other-operator": 0.5, "multisig-attack": 0.3, "wrong-chain": 0.3, "app-transfer-onto-existing-application": 0.25, "app-transfer-onto-unstaking-application": 0.04},
 		func(rt *rapid.T, c *harness.Case) {
 			w := chain.GenWorld(rt)
 			c.Opf("%s", w.Describe())
@@ -82,6 +83,14 @@ func TestC14(t *testing.T) {
 			for i, b := range pre.Blocks {
 				n.RunBlock(b)
 				c.Opf("%s", chain.DescribeBlock(b, pre.Txs[i]))
+			}
+			// in half of the worlds with two or more applications one of them begins to unstake right before the attacks
+			// (its record then waits in the unstaking queue unless the unstaking time is zero)
+			if len(w.Apps) >= 2 && rapid.Bool().Draw(rt, "anAppIsUnstaking") {
+				k := w.Apps[len(w.Apps)-1]
+				tx := chain.SignTx(w.Spec.ChainID, &appsTypes.MsgBeginUnstake{Address: chain.Addr(k)}, chain.DefaultFee, "", w.NextEntropy(), k)
+				n.RunBlock(chain.Block{DT: time.Second, Proposer: chain.Addr(w.Nodes[0]), Txs: [][]byte{tx}})
+				c.Opf("block{app begin-unstake %s by itself}", w.KeyName(k))
 			}
 			collector := authTypes.NewModuleAddress(authTypes.FeeCollectorName)
 			na := rapid.IntRange(6, 14).Draw(rt, "nAttacks")
@@ -161,6 +170,11 @@ func genAttack(rt *rapid.T, w *chain.World, n *chain.Node, c *harness.Case) atta
 	funded := w.AllFunded()
 	// the attacker: a funded key; classify whether it legitimately signs for other objects
 	atk := funded[rapid.IntRange(0, len(funded)-1).Draw(rt, "attacker")]
+	// every fourth attack comes from the owner of an application and targets somebody else's application
+	appOwnerAttack := len(w.Apps) >= 2 && rapid.Bool().Draw(rt, "appOwnerAttackA") && rapid.Bool().Draw(rt, "appOwnerAttackB")
+	if appOwnerAttack {
+		atk = w.Apps[rapid.IntRange(0, len(w.Apps)-1).Draw(rt, "attackerApp")]
+	}
 	isOp := false
 	for _, k := range w.Nodes {
 		if k.PublicKey().Equals(atk.PublicKey()) {
@@ -207,6 +221,9 @@ func genAttack(rt *rapid.T, w *chain.World, n *chain.Node, c *harness.Case) atta
 	fee := coins(chain.DefaultFee)
 	e := w.NextEntropy()
 	kind := rapid.SampledFrom([]string{"send", "nodeUnstake", "nodeUnjail", "nodeEdit", "appStake", "appUnstake", "appTransfer", "changeParam", "dao", "upgrade", "multisigSend"}).Draw(rt, "msgKind")
+	if appOwnerAttack {
+		kind = "appTransfer"
+	}
 	// how the (invalid) authentication is built for the noauth class
 	noauthTx := func(msg sdk.ProtoMsg, victim crypto.PrivateKey, desc string) attack {
 		how := rapid.SampledFrom([]string{"attackerKeyOwnPub", "attackerKeyVictimPub", "attackerKeyNoPub", "victimOtherChain", "victimOtherFee", "victimOtherMsg", "victimBitflip", "garbage"}).Draw(rt, "how")
@@ -318,6 +335,24 @@ func genAttack(rt *rapid.T, w *chain.World, n *chain.Node, c *harness.Case) atta
 		// application unless it is one of the app keys: then target another app (it cannot name whose app moves: the
 		// message moves the signer's own app), so use a non-app attacker only.
 		if attackerHasApp {
+			// the attacker owns an application: it may transfer ITS OWN application to a fresh key, but naming the key of
+			// somebody else's application (staked or waiting to unstake) as the target must not touch that application's
+			// record - the attacker's signature has no authority over it
+			var others []appsTypes.Application
+			for _, rec := range n.App.VerifAppsKeeper().GetAllApplications(n.Ctx()) {
+				if !rec.Address.Equals(chain.Addr(atk)) {
+					others = append(others, rec)
+				}
+			}
+			if len(others) > 0 && (appOwnerAttack || rapid.Bool().Draw(rt, "ontoExistingApp")) {
+				tgt := others[rapid.IntRange(0, len(others)-1).Draw(rt, "targetApp")]
+				c.Label("app-transfer-onto-existing-application")
+				if tgt.IsUnstaking() {
+					c.Label("app-transfer-onto-unstaking-application")
+				}
+				msg := &appsTypes.MsgStake{PubKey: tgt.PublicKey, Chains: nil, Value: sdk.ZeroInt()}
+				return selfpayTx(msg, fmt.Sprintf("app transfer of the attacker's application onto the key of existing application %s (status %d)", tgt.Address.String()[:8], tgt.Status))
+			}
 			v := w.Spare[2]
 			if v.PublicKey().Equals(atk.PublicKey()) {
 				v = w.Spare[1]
